@@ -230,6 +230,13 @@ def step (d : DS) (line : String) : DS × String :=
     (d, match Lean.Json.parse (" ".intercalate rest) >>= (fun j => do (← DJ.arr j).mapM DJ.tickEv) with
         | .error e => "{\"ok\":false,\"err\":\"parse\",\"detail\":" ++ (Lean.Json.str e).compress ++ "}"
         | .ok es => "{\"ok\":true,\"loop\":" ++ DJ.showStats (Sim.statsOf (Sim.loopC es)) ++ ",\"recount\":" ++ DJ.showStats (Sim.statsOf (Sim.recount es)) ++ "}")
+  | "sweep" :: n :: rest =>
+    (d, match Lean.Json.parse (" ".intercalate rest) >>= (fun j => do (← DJ.arr j).mapM DJ.tickH) with
+        | .error e => "{\"ok\":false,\"err\":\"parse\",\"detail\":" ++ (Lean.Json.str e).compress ++ "}"
+        | .ok hs =>
+          let tr := Sweep.runSweep n.toNat! hs
+          "{\"ok\":true,\"finished\":" ++ jarr (tr.finished.map (fun x => jarr [toString x.1, toString x.2.1, toString x.2.2])) ++
+            ",\"outstanding\":" ++ jarr (tr.outstanding.map (fun x => toString x.1)) ++ "}")
   | "scheck" :: which :: rest =>
     let text := " ".intercalate rest
     match Lean.Json.parse text >>= DJ.strace with
